@@ -255,6 +255,30 @@ class Prop:
                 any(('[%d, ' % p) in why or ('(%d, ' % p) in why for p in lim_peers)
         return False
 
+    def shrink(self, c, why):
+        """drop operations / schedule entries while the implementation still fails the Spec oracle"""
+        cur = dict(c)
+        for _ in range(40):
+            cands = []
+            for t, prog in enumerate(cur['progs']):
+                for i, o in enumerate(prog):
+                    if o[0] != 'sub':
+                        progs = [list(p) for p in cur['progs']]
+                        del progs[t][i]
+                        cands.append(dict(cur, progs=progs))
+            if cur['sched']:
+                cands.append(dict(cur, sched=cur['sched'][:-1]))
+            if not cands:
+                break
+            obs, err = self.run_impl(cands, 'quick')
+            if obs is None:
+                break
+            nxt = next((cd for cd, o in zip(cands, obs) if self.oracle(cd, o)), None)
+            if nxt is None:
+                break
+            cur = nxt
+        return cur
+
     def nontrivial_key(self, c, obs):
         if obs == [-1]:
             return None
